@@ -320,6 +320,42 @@ fn main() {
         let multi = d.iter().any(|(_, b)| b.len() > 2);
         cs.case(expr, json!({"rules": lines, "buckets": d.len()}), multi);
     }
+    // ---- oracle: optimizer::optimize iterates a freshly seeded hash map of fusion groups on every
+    // call; two calls on the same rules must give the same sequence, sorted by id
+    for _ in 0..(150 * a.scale) {
+        let n = r.range(3, 30);
+        let mut seen = std::collections::HashSet::new();
+        let mut filters: Vec<NetworkFilter> = vec![];
+        for _ in 0..n {
+            let line = match r.below(4) {
+                0 => gen::rule(&mut r, false),
+                1 => format!("{}${}", gen::segs(&mut r, 1, 3), r.pick(&["script", "image", "script,third-party", "xhr"])),
+                2 => format!("@@{}", gen::segs(&mut r, 1, 3)),
+                _ => gen::segs(&mut r, 1, 4),
+            };
+            if let Ok(f) = NetworkFilter::parse(&line, r.chance(1, 2), Default::default()) {
+                if seen.insert(f.id) {
+                    filters.push(f);
+                }
+            }
+        }
+        filters.sort_by_key(|f| f.id);
+        let strip = |v: Vec<NetworkFilter>| v.iter().map(|f| { let mut d = dump_filter(f); d.addr = 0; d }).collect::<Vec<_>>();
+        let o1 = strip(adblock::verif_hooks::optimize(filters.clone()));
+        let mut same = true;
+        for _ in 0..3 {
+            if strip(adblock::verif_hooks::optimize(filters.clone())) != o1 {
+                same = false;
+            }
+        }
+        sm.oracle_evaluations += 1;
+        let sorted = o1.windows(2).all(|w| w[0].id < w[1].id);
+        *stats.entry(if o1.len() < filters.len() { "optimize_fused_something".to_string() } else { "optimize_nothing_to_fuse".to_string() }).or_insert(0) += 1;
+        if !same || !sorted {
+            sm.failure(None, &format!("optimizer::optimize is not a function of its input / not sorted by id (same={}, sorted={})", same, sorted),
+                json!({"kind": "optimize", "rules": filters.iter().map(|f| dump_filter(f).raw_line).collect::<Vec<_>>()}));
+        }
+    }
     for (k, v) in stats {
         cs.stats.insert(k, v);
     }
